@@ -52,6 +52,7 @@ class StrictSolver(object):
         self.last_result = None
         self.exited = False
         self.checks = 0
+        self.fail_on = None     # fault injection: the next command with this name answers (error ...)
 
     def depth(self):
         return len(self.it.levels) - 1
@@ -67,6 +68,9 @@ class StrictSolver(object):
             if len(cmds) != 1:
                 raise SmtError("expected exactly one command")
             cmd = cmds[0]
+            if self.fail_on is not None and isinstance(cmd, list) and cmd and getattr(cmd[0], "name", None) == self.fail_on:
+                self.fail_on = None
+                return '(error "injected failure")'      # not recorded as a stream error: it is the fault
             r = self.it.run(cmd)
             if r is None:
                 r = self.special(cmd)
